@@ -161,7 +161,8 @@ func impliedScenario(r *rand.Rand) *Scenario {
 	for _, n := range []string{"a", "b", "c"} {
 		var sb string
 		for i, k := 0, 1+r.Intn(3); i < k; i++ {
-			sb += fmt.Sprintf("m%s {\n  v%d = module.%s.out\n  w = module.root.out\n}\n", n, i, n)
+			// (two attributes of one body name the same implied address: both get the path origin)
+			sb += fmt.Sprintf("m%s {\n  v%d = module.%s.out\n  w = module.root.out\n  again = module.%s.out\n  zz = module.root.out\n}\n", n, i, n, n)
 		}
 		files[n+".tf"] = sb + "top_" + n + " = module.root.out\n"
 	}
